@@ -79,6 +79,24 @@ PW(kind, p, th, q) ==
     IN IF r < s THEN s - r ELSE 0
 ProbeRS == <<2, 1>>
 
+\* Periodic domain (DomainManager): per = <<Lx, Ly, Lz>>, 0 = not periodic.
+\* Declaratively (Domain.tla): every source has an image at +-L along each
+\* periodic axis; images carry the values of their source.  The lattice
+\* cases keep L larger than any kernel support and the targets inside the
+\* domain, so further images never matter.
+PerShifts(per) ==
+    LET S(l) == IF l = 0 THEN {0} ELSE {-l, 0, l}
+    IN {<<a, b, c>> : a \in S(per[1]), b \in S(per[2]), c \in S(per[3])}
+Shifted(P, s) == [k \in 1..Len(P) |->
+                    [P[k] EXCEPT !.x = @ + s[1], !.y = @ + s[2], !.z = @ + s[3]]]
+RECURSIVE CatImages(_, _)
+CatImages(P, ss) ==
+    IF ss = {} THEN <<>>
+    ELSE LET s == CHOOSE t \in ss : TRUE
+         IN Shifted(P, s) \o CatImages(P, ss \ {s})
+WithImages(P, per) ==
+    IF per = <<0, 0, 0>> THEN P ELSE CatImages(P, PerShifts(per))
+
 (***************************************************************************)
 (* Part 2: the documented values.  P = Parts(sources), p the point, th its *)
 (* smoothing length.                                                       *)
@@ -243,6 +261,10 @@ ClauseFinite(c, v) == c.method # "order1" => IsNum(v[1])
 ClauseFormula(c, P, p, th, v) ==
     (c.exact /\ c.method # "order1") =>
         RecEq(v[1], PValue(c.method, P, p, th), TolExact)
+\* the generators keep every expected value within the recorded format
+ClauseRepresentable(c, P, p, th) ==
+    (c.exact /\ c.method # "order1") =>
+        Representable(PValue(c.method, P, p, th))
 ClauseBounds(c, P, p, th, v) ==
     Normalised(c.method) =>
         LET may == MaySet(c, P, p, th)
@@ -267,7 +289,8 @@ ClauseLinear(c, P, p, th, lin, v) ==
             RecEqInt(v[j], LinComp(lin, p, j - 1), TolLoose)
 
 FailedWith(c, P, p, th, lin, v) ==
-    IF ~ClauseFinite(c, v) THEN {"finite"}
+    IF ~ClauseRepresentable(c, P, p, th) THEN {"unrepresentable"}
+    ELSE IF ~ClauseFinite(c, v) THEN {"finite"}
     ELSE (IF ClauseFormula(c, P, p, th, v) THEN {} ELSE {"formula"})
          \cup (IF ClauseBounds(c, P, p, th, v) THEN {} ELSE {"bounds"})
          \cup (IF ClauseConstant(c, P, p, th, v) THEN {} ELSE {"constant"})
@@ -287,7 +310,7 @@ AppliedWith(c, P, p, th, lin) ==
 
 (***************************************************************************)
 (* Part 6: histories.  A recorded behaviour x:                             *)
-(*   x.cfg  = [method, dim, exact, rs, api, ue]                            *)
+(*   x.cfg  = [method, dim, exact, rs, api, ue, per]                       *)
 (*   x.names0 = names of the source arrays in the order of construction    *)
 (*   x.steps = Seq([act, src, pts, lin, res]) - the abstract state AFTER   *)
 (*   each action (what the driver told the real object) and, for           *)
@@ -347,15 +370,16 @@ THOpts(x, k, i) ==
              b == HMax(x.steps[k].src)
          IN IF a = b THEN <<a>> ELSE <<a, b>>
 
+SrcP(x, k) == WithImages(Parts(x.steps[k].src), x.cfg.per)
 PointFailed(x, k, i) ==
     LET s == x.steps[k]
-        P == Parts(s.src)
+        P == SrcP(x, k)
         o == THOpts(x, k, i)
         F(j) == FailedWith(x.cfg, P, s.pts[i], o[j], s.lin, s.res[i])
     IN IF \E j \in 1..Len(o) : F(j) = {} THEN {} ELSE F(1)
 PointApplied(x, k, i) ==
     LET s == x.steps[k]
-    IN AppliedWith(x.cfg, Parts(s.src), s.pts[i], THOpts(x, k, i)[1], s.lin)
+    IN AppliedWith(x.cfg, SrcP(x, k), s.pts[i], THOpts(x, k, i)[1], s.lin)
 
 IStep(x, k) == x.steps[k].act = "Interpolate"
 StepFailed(x, k) ==
@@ -382,7 +406,7 @@ BelowThreshold(c, P, p, th) ==
 ThresholdSig(x, k) ==
     \E i \in 1..Len(x.steps[k].pts) :
         \E j \in 1..Len(THOpts(x, k, i)) :
-            BelowThreshold(x.cfg, Parts(x.steps[k].src), x.steps[k].pts[i],
+            BelowThreshold(x.cfg, SrcP(x, k), x.steps[k].pts[i],
                            THOpts(x, k, i)[j])
 (* C14-order1-3d-stale-rhs: SPHFirstOrderApproximation.initialize resets   *)
 (*   3 of the 4 entries of the right-hand side: in 3-D the last one keeps  *)
@@ -394,7 +418,7 @@ FirstCompute(x, k) ==
     \A j \in (LastSet(x, k) + 1)..(k - 1) : ~IStep(x, j)
 FirstValueOK(x, k) ==
     LET s == x.steps[k]
-        P == Parts(s.src)
+        P == SrcP(x, k)
     IN \A i \in 1..Len(s.pts) :
          \E j \in 1..Len(THOpts(x, k, i)) :
             LET t == THOpts(x, k, i)[j]
